@@ -8,7 +8,7 @@
    (a command applied to a missing field is outside the documented semantics). *)
 EXTENDS Pipeline
 
-Base == {"a", "b", "m"}
+Base == {"a", "b", "m", "f"}
 Avail0 == Base \cup {"single"}   \* "single": m has not been split into a multi-value yet
 C(r, u, k, g) == r @@ [uses |-> u, kills |-> k, gives |-> g]
 
@@ -66,16 +66,25 @@ Later == {Where("n", 1), Where("d", 2), Sort("d", TRUE, 0), Sort("n", FALSE, 0),
 
 Cmds == Streaming \cup Blocking
 CmdsAll == Cmds \cup SSWindow \cup SSRoc
+(* commands on the mixed integer / fractional field f, alone and behind the commands that decide how many batches an
+   aggregation sees (`stats sum(f)` without by-clause folds one partial aggregate per batch into the running one) *)
+FracCmds == {Stats("sum", "f", ""), Stats("sum", "f", "a"), SS("sum", "f", "", 0, FALSE, "n"), SS("sum", "f", "a", 0, FALSE, "n"),
+             SS("sum", "f", "", 2, FALSE, "n"), Sort("f", TRUE, 0), Sort("f", FALSE, 2), Where("f", 1), EvalAdd("d", "f", "f"), Top("f", 0), Dedup(<<"f">>, 1, FALSE, FALSE)}
+FracChains == {ch \in {<<c, t>> : c \in {HeadC(2), Where("a", 0), Where("f", 1), Dedup(<<"a">>, 1, FALSE, FALSE), EvalAdd("d", "f", "f"),
+                                          Fillnull(0, {"b"}), Sort("f", TRUE, 0), SS("sum", "f", "", 0, FALSE, "n")},
+                                  t \in {Stats("sum", "f", ""), Stats("sum", "f", "a"), SS("sum", "f", "", 0, FALSE, "n"), Sort("f", FALSE, 0)}} : Valid(ch)}
+              \cup {<<Stats("sum", "f", ""), Fillnull(0, {})>>, <<EvalAdd("d", "f", "f"), Stats("sum", "d", "")>>}
 (* further dedup forms: keepevents, consecutive with limit / keepevents / keepempty *)
 DedupMore == {DedupKE(<<"a">>, 1, FALSE, FALSE), DedupKE(<<"b">>, 1, FALSE, FALSE), Dedup(<<"a">>, 2, TRUE, FALSE),
               DedupKE(<<"a">>, 1, TRUE, FALSE), Dedup(<<"b">>, 1, TRUE, TRUE)}
-Singles == {<<c>> : c \in Cmds \cup HeadXs \cup DedupMore}
+Singles == {<<c>> : c \in Cmds \cup HeadXs \cup DedupMore \cup FracCmds}
 (* Rewind obligation: every streaming command that keeps state across batches (head, head <expr>, dedup in all forms,
    streamstats) in front of a two-pass command.  The rows the user sees are those of the SECOND pass, so Rewind() must
    bring the command back to its initial state - whatever the first pass left behind (a run that ended with the key the
    stream starts with, a reached limit, running sums ...). *)
 StatefulStreaming == {c \in Streaming \cup HeadXs \cup DedupMore \cup SSWindow \cup SSRoc : c.op \in {"head", "headx", "dedup", "streamstats"}}
 RewindChains == {ch \in {<<c, t>> : c \in StatefulStreaming, t \in {Fillnull(0, {}), Bin2("a")}} : Valid(ch)}
+RewindAndFracChains == RewindChains \cup FracChains
 (* the two-pass commands once more, alone and behind a streaming command, for the configuration with three distinct
    values of `a` and four rows: a later batch can then extend what the first pass has learnt at both ends *)
 TwoPassChains == {<<Bin2("a")>>, <<Fillnull(0, {})>>, <<Where("b", 0), Bin2("a")>>, <<HeadC(3), Bin2("a")>>, <<Bin2("a"), TailC(2)>>,
@@ -89,7 +98,10 @@ Core == {HeadC(2), HeadX("a", "lt", 4, 2, FALSE, FALSE), Dedup(<<"a">>, 1, FALSE
 Triples == {ch \in {<<c1, c2, c3>> : c1 \in Core, c2 \in Core, c3 \in Core \cup {Where("n", 1), Sort("cnt", FALSE, 0)}} : Valid(ch)}
 
 (* ---- rows: a in 1..3, b in {1, 2, NULL}; m is "1" / "1,2" / "3" ---- *)
-Row(x, y) == [a |-> x, b |-> y, m |-> IF x = 2 THEN 12 ELSE x]
+(* f: a numeric field with mixed integer and fractional values, in units of 0.5 (2 = 1, 4 = 2, 1 = 0.5): rows without b
+   carry the fraction 0.5, the others the integer a.  The harness ingests an even value as an INTEGER and an odd one as a
+   FLOAT, so a batch / block may be all-integer and a later one fractional (and the other way round). *)
+Row(x, y) == [a |-> x, b |-> y, m |-> IF x = 2 THEN 12 ELSE x, f |-> IF y = NULL THEN 1 ELSE 2 * x]
 RowsFull == {Row(x, y) : x \in 1..3, y \in {1, 2, NULL}}
 RowsMid == {Row(1, 1), Row(1, 2), Row(2, 2), Row(2, NULL), Row(3, 1)}
 RowsSmall == {Row(1, 1), Row(2, 2), Row(1, NULL)}
